@@ -49,6 +49,41 @@ func KeyLoose(k []Val) string {
 	return strings.Join(p, ",")
 }
 
+// DupListKeys reports whether some keyed list of the tree holds two entries with the same key tuple.
+// An observed Go tree can be in that state when its map keys are pointers (wrapper-union keys); which of
+// the two entries a later read or write reaches then depends on map iteration order.
+func (n *Node) DupListKeys() bool {
+	if n == nil {
+		return false
+	}
+	for _, l := range n.List {
+		seen := map[string]bool{}
+		for _, e := range l {
+			k := KeyLoose(e.Key)
+			if seen[k] {
+				return true
+			}
+			seen[k] = true
+			if e.N.DupListKeys() {
+				return true
+			}
+		}
+	}
+	for _, c := range n.Cont {
+		if c.DupListKeys() {
+			return true
+		}
+	}
+	for _, l := range n.UList {
+		for _, e := range l {
+			if e.DupListKeys() {
+				return true
+			}
+		}
+	}
+	return false
+}
+
 // IsEmpty reports whether the node holds no data at all (recursively: no leaves, no entries, and only
 // empty non-presence containers). Presence containers count as data when countPresence is set.
 func (n *Node) IsEmpty(countPresence bool) bool {
